@@ -3,7 +3,7 @@
 From Coq Require Import List.
 Import ListNotations.
 From WB Require Import Base.Str Base.Json Model.Key Model.Consts Model.Store Model.Entry Model.Core Model.Rest Spec.MapSpec
-  Proofs.CoreFacts Proofs.C01Proof Proofs.SysGuard Proofs.RestFacts.
+  Proofs.CoreFacts Proofs.LenFacts Proofs.C01Proof Proofs.SubsFacts Proofs.C03Proof Proofs.StreamProof Proofs.SysGuard Proofs.RestFacts Proofs.LockHistory Proofs.SessionEnd Proofs.SysKeep.
 
 (* for a key whose first segment is literally $SYS, an ordinary client passes the guard exactly
    for $SYS/clients/<own id>/{graveGoods,lastWill,clientName}[/...]; anything else is ReadOnlyKey *)
@@ -51,6 +51,45 @@ Proof.
   exists (fst (do_subscribe init 0 1 sys_sentinel false true)), (JStr [102]). vm_compute. auto.
 Qed.
 Print Assumptions C08_publish_refuted.
+
+(* as a statement about states (Proofs/SysKeep.v): whatever an ordinary client asks for -- set, cset, delete with any key;
+   pdelete with a pattern whose first segment is literal; import; publish, publish streams, subscriptions, locks --, every
+   value under $SYS other than that client's own graveGoods / lastWill / clientName entries reads afterwards as before;
+   and along every history of such requests of any number of clients a value under $SYS that is nobody's own entry is
+   never touched.  (First segment a wildcard: F4; what publish shows subscribers: F5; session starts and ends are the
+   server's own bookkeeping -- what a session end does for the client is a run of such requests: C07.) *)
+Theorem C08_client_keeps_sys :
+  forall s c o q, Inv s -> c <> 0%N -> client_req c o -> ~ own_entry c q ->
+    abs (fst (step s o)) (s_SYS :: q) = abs s (s_SYS :: q).
+Proof. exact client_keeps_sys. Qed.
+Print Assumptions C08_client_keeps_sys.
+
+Theorem C08_clients_keep_sys :
+  forall os s q, Inv s -> LenInv s -> client_hist os -> no_crash_run s (map snd os) ->
+    (forall c, In c (map fst os) -> ~ own_entry c q) ->
+    abs (final s (map snd os)) (s_SYS :: q) = abs s (s_SYS :: q).
+Proof. exact clients_keep_sys. Qed.
+Print Assumptions C08_clients_keep_sys.
+
+(* "... or through its grave goods and last will": when a session ends, apart from the server's own bookkeeping -- the
+   client count $SYS/clients and the subtree $SYS/clients/<id> of the ending client -- every value under $SYS reads
+   afterwards as before, whatever grave goods (with a literal first segment: F4) and last wills it had registered *)
+Theorem C08_session_end_keeps_sys :
+  forall s c q, Inv s -> LenInv s -> Forall literal_first (gg_of s c) ->
+    is_crash (snd (do_disconnected s c)) = false ->
+    q <> [s_clients] -> (forall r, q <> s_clients :: client_str c :: r) ->
+    abs (fst (do_disconnected s c)) (s_SYS :: q) = abs s (s_SYS :: q).
+Proof. exact session_end_keeps_sys. Qed.
+Print Assumptions C08_session_end_keeps_sys.
+
+Example C08_clients_keep_sys_nonvacuous :
+  let s0 := fst (step init (OSet 0 [36;83;89;83;47;118]%N (JStr [120]%N) true)) in
+  let os := [(1, OSet 1 [36;83;89;83;47;118] (JStr [101]) false); (1, ODelete 1 [36;83;89;83;47;118]); (2, OPDelete 2 [36;83;89;83;47;35]);
+             (1, OSet 1 (topic [s_SYS; s_clients; client_str 1; s_graveGoods]) (JArr []) false); (2, OSet 2 [97] JNull false)]%N in
+  (client_hist os /\ no_crash_run s0 (map snd os)) /\
+  abs (final s0 (map snd os)) [s_SYS; [118]%N] = Some (Plain (JStr [120]%N)) /\
+  abs (final s0 (map snd os)) [s_SYS; s_clients; client_str 1%N; s_graveGoods] = Some (Plain (JArr [])).
+Proof. exact clients_keep_sys_demo. Qed.
 
 (* an import -- the one request that carries a whole tree -- never reaches $SYS: whatever the tree contains, every path
    whose first segment is $SYS reads afterwards as before (Store::merge strips $SYS: repair of F29), also through the REST
